@@ -166,6 +166,34 @@ def search(chk: common.Check, rng, n_events: int):
             bad.append({"what": "collinear event on the Dalitz boundary: exact Kibble != 0 or indicator != 1",
                         "masses": [str(M0), m1_, ma, mb], "momenta_x": [p1, pa, pb], "sigma1": str(S1), "sigma2": str(S2),
                         "kibble_exact": str(kib), "indicator": str(val)})
+    # construction with NUMBERS must agree with construction on symbols followed by substitution
+    # (exact rationals; equal, zero and distinct masses) — the functions are ordinary Python
+    # functions, so what they do with numeric arguments is not seen by translating their symbolic form
+    R = sp.Rational
+    sym_third = ps.compute_third_mandelstam(s1, s2, m0, m1, m2, m3)
+    sym_ind = ps.is_within_phasespace(s1, s2, m0, m1, m2, m3, outside_value=ov)
+    sym_kib = ps.Kibble(s1, s2, s3, m0, m1, m2, m3)
+    for i in range(60 if n_events < 1000 else 300):
+        pool = [R(0), R(rng.randint(1, 9), rng.randint(1, 9)), R(rng.randint(1, 9), rng.randint(1, 9))]
+        ms = [rng.choice(pool) for _ in range(3)]  # equal masses are frequent on purpose
+        M0 = sum(ms) + R(rng.randint(1, 20), 7)
+        S1 = R(rng.randint(0, 200), 13)
+        S2 = R(rng.randint(0, 200), 11)
+        S3 = R(rng.randint(0, 200), 17)
+        subs = {s1: S1, s2: S2, s3: S3, m0: M0, m1: ms[0], m2: ms[1], m3: ms[2], ov: R(-7)}
+        pairs = [
+            ("compute_third_mandelstam", ps.compute_third_mandelstam(S1, S2, M0, *ms), sym_third.subs(subs)),
+            ("Kibble", ps.Kibble(S1, S2, S3, M0, *ms).doit(), sym_kib.doit().subs(subs)),
+            ("is_within_phasespace", ps.is_within_phasespace(S1, S2, M0, *ms, outside_value=R(-7)).doit(), sym_ind.doit().subs(subs)),
+            ("Kallen", ps.Kallen(S1, ms[0], ms[1]).doit(), ps.Kallen(s1, m1, m2).doit().subs(subs)),
+        ]
+        chk.count(("numeric-construction", i, tuple(map(str, ms))))
+        for name, direct, via_symbols in pairs:
+            if sp.nsimplify(direct) != sp.nsimplify(via_symbols):
+                bad.append({"what": f"{name}: called with numbers differs from symbolic form with the numbers substituted",
+                            "masses": [str(M0), *map(str, ms)], "sigma": [str(S1), str(S2), str(S3)],
+                            "direct": str(direct), "via_symbols": str(via_symbols)})
+                break
     # Kallen symmetry + factorisation
     for i in range(n_events):
         x_, y_, z_ = rng.uniform(-3, 20), rng.uniform(0, 20), rng.uniform(0, 20)
